@@ -27,11 +27,7 @@ Theorem C18_read_exact : forall H compress decompress size start ops,
   let sp := spec_run H compress (spec_init size start) ops in
   forall r ra rec seq, nth_error (s_readers s) r = Some ra -> In rec (sp_log sp) ->
   snd (read_record H decompress (w_file (s_w s)) (w_flushed (s_w s)) ra (a_off rec) seq) = spec_read H compress sp rec.
-Proof.
-  intros H compress decompress size start ops [Hd Hb] Hs Hwf Hk s sp r ra rec seq Hr Hin.
-  apply (read_exact H compress decompress Hd Hb s sp r ra rec seq); [|assumption|assumption].
-  apply inv_run; [assumption|assumption|apply inv_init; assumption|assumption|assumption].
-Qed.
+Proof. exact c18_read_exact. Qed.
 
 (* no returned byte lies at or beyond the flushed offset: at ANY offset a read is a function of the first
    [flushed] bytes of the file (the view), whatever the file holds beyond and whatever the reader cached before *)
@@ -43,11 +39,7 @@ Theorem C18_no_unflushed : forall H compress decompress size start ops,
   forall r ra off seq, nth_error (s_readers s) r = Some ra ->
   snd (read_record H decompress (w_file (s_w s)) (w_flushed (s_w s)) ra off seq) =
   decode_view H decompress (dropN off (takeN (w_flushed (s_w s)) (w_file (s_w s)))).
-Proof.
-  intros H compress decompress size start ops [Hd Hb] Hs Hwf Hk s r ra off seq Hr.
-  apply (read_only_flushed H compress decompress s (spec_run H compress (spec_init size start) ops) r ra off seq); [|assumption].
-  apply inv_run; [assumption|assumption|apply inv_init; assumption|assumption|assumption].
-Qed.
+Proof. exact c18_no_unflushed. Qed.
 
 (* iteration from a record start yields exactly the flushed live records met by following the lengths, and
    ends cleanly ([spec_iter] is [None] only when the walk leaves the live records, which needs a truncation to
@@ -61,11 +53,21 @@ Theorem C18_iter_exact : forall H compress decompress size start ops,
   forall r ra off l, nth_error (s_readers s) r = Some ra ->
   spec_iter H compress (scan_fuel (w_flushed (s_w s))) sp off = Some l ->
   exists ra' o, iter_all H decompress (w_file (s_w s)) (w_flushed (s_w s)) ra off = (ra', l, o, TEnd).
-Proof.
-  intros H compress decompress size start ops [Hd Hb] Hs Hwf Hk s sp r ra off l Hr Hl.
-  apply (iter_exact H compress decompress Hd Hb s sp r ra off l); [|assumption|assumption].
-  apply inv_run; [assumption|assumption|apply inv_init; assumption|assumption|assumption].
-Qed.
+Proof. exact c18_iter_exact. Qed.
+
+(* when truncations are aimed at record starts (what sierradb does) the live records tile the written region:
+   iteration from the start of ANY live record yields exactly the flushed records from there on, and ends cleanly *)
+Theorem C18_iter_flushed : forall H compress decompress size start ops,
+  codec_ok compress decompress -> start <= size ->
+  wf_ops H compress (spec_init size start) ops ->
+  known_free H compress decompress (sl_init size start) ops = true ->
+  boundary_ops H compress (spec_init size start) ops ->
+  let s := fst (sl_run H compress decompress (sl_init size start) ops) in
+  let sp := spec_run H compress (spec_init size start) ops in
+  forall r ra rec, nth_error (s_readers s) r = Some ra -> In rec (sp_log sp) ->
+  exists ra' o, iter_all H decompress (w_file (s_w s)) (w_flushed (s_w s)) ra (a_off rec) =
+                (ra', flushed_from H compress sp (a_off rec), o, TEnd).
+Proof. exact c18_iter_flushed. Qed.
 
 (* the writer's bookkeeping agrees with the specification: write offset, flushed offset (never above the write
    offset, never above what is physically in the file) *)
@@ -78,59 +80,46 @@ Theorem C18_offsets : forall H compress decompress size start ops,
   w_off (s_w s) = sp_off sp /\ w_flushed (s_w s) = sp_flushed sp /\
   w_flushed (s_w s) <= w_cursor (s_w s) /\ w_cursor (s_w s) + lenN (w_buf (s_w s)) = w_off (s_w s) /\
   w_off (s_w s) <= w_size (s_w s).
-Proof.
-  intros H compress decompress size start ops [Hd Hb] Hs Hwf Hk s sp.
-  assert (I : INV2 H compress s sp) by (apply inv_run; [assumption|assumption|apply inv_init; assumption|assumption|assumption]).
-  destruct I as [[Ipos Ifl [Isz1 Isz2] Idirty (Isp1 & Isp2 & Isp3 & Isp4) Ilog Iord Ird] _].
-  unfold wpos in Ipos. repeat split; auto; lia.
-Qed.
+Proof. exact c18_offsets. Qed.
 
 (** ** the two known findings, on the model (H = 0, no compression involved) *)
-Definition c18_id (x : list N) : list N := x.
-Definition c18_some (x : list N) : option (list N) := Some x.
-
-(* set_len below a cached window, rewrite, sync: the old reader serves the OLD bytes (here: reports the old
-   record's length as out of bounds) although a different record is now flushed at that offset *)
-Definition c18_hist_setlen : list sl_op :=
-  [ONewReader; OAppend [] [102;105;114;115;116]; OAppend [] [79;76;68;45;50;50]; OSync; ORead 0 0 true;
-   OSetLen 13; OAppend [] [78;69;87]; OSync].
-(* replace_header through reader 0 while reader 1 has the record cached: reader 1 returns the old header *)
-Definition c18_hist_replace : list sl_op :=
-  [ONewReader; ONewReader; OAppend [1;1] [100;97;116;97]; OSync; ORead 1 0 true; OReplace 0 0 [2;2]].
-
+(* wit_id / wit_some: the identity codec; wit_hist_setlen / wit_hist_replace / wit_hist_ok: the histories below
+   (Proofs/SeglogProofs.v):
+   wit_hist_setlen  = [ONewReader; OAppend [] "first"; OAppend [] "OLD-22"; OSync; ORead 0 0 Sequential;
+                       OSetLen 13; OAppend [] "NEW"; OSync]        then: read 13 Sequential through reader 0
+   wit_hist_replace = [ONewReader; ONewReader; OAppend [1;1] "data"; OSync; ORead 1 0 Sequential; OReplace 0 0 [2;2]]
+                                                                     then: read 0 Sequential through reader 1 *)
 Theorem C18_known_refuted :
-  (let s := fst (sl_run 0 c18_id c18_some (sl_init 4096 0) c18_hist_setlen) in
-   let sp := spec_run 0 c18_id (spec_init 4096 0) c18_hist_setlen in
-   wf_ops 0 c18_id (spec_init 4096 0) c18_hist_setlen /\
-   known_free 0 c18_id c18_some (sl_init 4096 0) c18_hist_setlen = false /\
+  (let s := fst (sl_run 0 wit_id wit_some (sl_init 4096 0) wit_hist_setlen) in
+   let sp := spec_run 0 wit_id (spec_init 4096 0) wit_hist_setlen in
+   wf_ops 0 wit_id (spec_init 4096 0) wit_hist_setlen /\
+   known_free 0 wit_id wit_some (sl_init 4096 0) wit_hist_setlen = false /\
    exists ra rec, nth_error (s_readers s) 0 = Some ra /\ In rec (sp_log sp) /\ a_off rec = 13 /\
-     spec_read 0 c18_id sp rec = ROk (a_expect 0 c18_id rec) /\
-     snd (read_record 0 c18_some (w_file (s_w s)) (w_flushed (s_w s)) ra 13 true) <> spec_read 0 c18_id sp rec) /\
-  (let s := fst (sl_run 2 c18_id c18_some (sl_init 4096 0) c18_hist_replace) in
-   let sp := spec_run 2 c18_id (spec_init 4096 0) c18_hist_replace in
-   wf_ops 2 c18_id (spec_init 4096 0) c18_hist_replace /\
-   known_free 2 c18_id c18_some (sl_init 4096 0) c18_hist_replace = false /\
+     spec_read 0 wit_id sp rec = ROk (a_expect 0 wit_id rec) /\
+     snd (read_record 0 wit_some (w_file (s_w s)) (w_flushed (s_w s)) ra 13 true) <> spec_read 0 wit_id sp rec) /\
+  (let s := fst (sl_run 2 wit_id wit_some (sl_init 4096 0) wit_hist_replace) in
+   let sp := spec_run 2 wit_id (spec_init 4096 0) wit_hist_replace in
+   wf_ops 2 wit_id (spec_init 4096 0) wit_hist_replace /\
+   known_free 2 wit_id wit_some (sl_init 4096 0) wit_hist_replace = false /\
    exists ra rec, nth_error (s_readers s) 1 = Some ra /\ In rec (sp_log sp) /\ a_off rec = 0 /\
-     r_hdr (a_expect 2 c18_id rec) = [2;2] /\
-     snd (read_record 2 c18_some (w_file (s_w s)) (w_flushed (s_w s)) ra 0 true) <> spec_read 2 c18_id sp rec).
+     r_hdr (a_expect 2 wit_id rec) = [2;2] /\
+     snd (read_record 2 wit_some (w_file (s_w s)) (w_flushed (s_w s)) ra 0 true) <> spec_read 2 wit_id sp rec).
 Proof. exact c18_known_witness. Qed.
 
 (** ** non-vacuity: a history with every kind of operation that satisfies the hypotheses, and what the
     theorems give for it *)
-Definition c18_hist_ok : list sl_op :=
-  [ONewReader; OAppend [7;7] [1;2;3]; OSync; ORead 0 0 true; OAppend [8;8] [4;5]; OFlush; ORead 0 13 true;
-   OClone 0; OSync; ORead 0 13 true; OAppend [9;9] [6]; OSetLen 25; OComp true; OAppend [3;3] [6;6];
-   OSync; OReplace 0 13 [5;5]; OIter 1 0; ORead 0 25 false].
 Example C18_ex_hyps :
-  wf_ops 2 c18_id (spec_init 4096 0) c18_hist_ok /\
-  known_free 2 c18_id c18_some (sl_init 4096 0) c18_hist_ok = true.
-Proof. exact c18_ex_hyps_ok. Qed.
+  codec_ok wit_id wit_some /\
+  wf_ops 2 wit_id (spec_init 4096 0) wit_hist_ok /\
+  known_free 2 wit_id wit_some (sl_init 4096 0) wit_hist_ok = true.
+Proof. exact (conj wit_id_codec_ok c18_ex_hyps_ok). Qed.
 Example C18_ex_iter :
-  let sp := spec_run 2 c18_id (spec_init 4096 0) c18_hist_ok in
-  option_map (map fst) (spec_iter 2 c18_id (scan_fuel (sp_flushed sp)) sp 0) = Some [0; 13; 25].
+  let sp := spec_run 2 wit_id (spec_init 4096 0) wit_hist_ok in
+  option_map (map fst) (spec_iter 2 wit_id (scan_fuel (sp_flushed sp)) sp 0) = Some [0; 13; 25].
 Proof. vm_compute. reflexivity. Qed.
 
 Print Assumptions C18_read_exact.
 Print Assumptions C18_no_unflushed.
 Print Assumptions C18_iter_exact.
+Print Assumptions C18_iter_flushed.
 Print Assumptions C18_known_refuted.
